@@ -31,7 +31,7 @@ ProgsC07 == {
   P(<<Tr("append", "x"), Rd>>, <<Tr("chop", "-")>>, <<Wr(<<>>)>>)
 }
 \* C07: one failing step inside Transform, all length relations
-ProgsFault == { P(<<Tr(k, "t")>>, <<>>, <<>>) : k \in {"append", "grow", "chop", "same"} }
+ProgsFault == { P(<<Tr(k, "t")>>, <<>>, <<>>) : k \in {"append", "grow", "grow3", "chop", "same"} }
 
 MCProgs == CASE Family = "C06" -> ProgsC06 [] Family = "C07" -> ProgsC07 [] OTHER -> ProgsFault
 
